@@ -265,6 +265,29 @@
   [(if stuck [:stuck got] :finished) n (length served)
    (tuple ;(seq [i :range [0 n] :when (not= (get replies i) (string "echo:req-" i))] [i (get replies i :none)]))])
 
+(defn run-halfclose [item]
+  # the client writes a payload, half-closes its sending side, and still receives the reply
+  (def [conn cli srv] (make-pair :unix (item :scratch)))
+  (def size (item :size))
+  (def data (payload 0 size))
+  (def done (ev/chan 2))
+  (var sres :pending) (var cres :pending)
+  (def t (new-tracker))
+  (ev/go (fn [] (set sres (try (do (while (def b (ev/read conn 65536)) (track t b))
+                                    (ev/write conn (string "got:" (t :total)))
+                                    (ev/close conn) :ok) ([e] [:error (string e)])))
+           (ev/give done :s)))
+  (ev/go (fn [] (set cres (try (do (when (> size 0) (ev/write cli data))
+                                    (net/shutdown cli (item :how))
+                                    (def reply @"")
+                                    (while (def b (ev/read cli 64)) (buffer/push reply b))
+                                    (string reply)) ([e] [:error (string e)])))
+           (ev/give done :c)))
+  (var got 0)
+  (def stuck (try (do (ev/with-deadline 1000 (repeat 2 (ev/take done) (++ got))) false) ([e] true)))
+  (protect (ev/close srv)) (protect (ev/close cli)) (protect (ev/close conn))
+  [(if stuck [:stuck got] :finished) sres cres (t :total) (t :bad)])
+
 (defn run-shared [item]
   # a child whose standard streams share one duplex stream (inetd arrangement and its variants)
   (def [conn cli srv] (make-pair :unix (item :scratch)))
@@ -308,6 +331,7 @@
              :queued (run-queued item)
              :close-both (run-close-both item)
              :accept-burst (run-accept-burst item)
+             :halfclose (run-halfclose item)
              :duplex (run-duplex item)
              :shared (run-shared item)))
     (def c1 (verif/io-calls))
